@@ -150,7 +150,7 @@ def worker(job):
 def main(chk, tier, seed):
     chk.rule = RULE
     chk.assumptions = ["oracle tables are harness-owned dicts", "values below 2^53 (float64 matrices are what join/projection build)"]
-    n = 12000 if tier == "quick" else 90000
+    n = 12000 if tier == "quick" else 450000
     common.run_chunked(chk, "c12", n, nchunks=16 if tier == "quick" else 64, timeout=3000)
     ops = chk.extra.get("operations", {})
     for o in ("set_value", "join", "projection"):
